@@ -53,3 +53,11 @@ CASES += [
     dict(id='c15-eq-unique-lock', prop='C15', file='src/celma/log/files/handler.hpp', expect=None,
          old="   const std::lock_guard< L>  lock( mLockType);", new="   std::unique_lock< L>  guard( mLockType);"),
 ]
+
+BU = 'src/library/log/filename/builder.cpp'
+CASES += [
+    dict(id='c15-filename-number-part-uses-pid', prop='C15', file=BU, expect='R6',
+         old="         formatNumber( dest, part_def, logfile_nbr);", new="         formatNumber( dest, part_def, logfile_nbr % 10);"),
+    dict(id='c15-eq-format-number-local-text', prop='C15', file=BU, expect=None,
+         old="   dest.append( oss.str());\n\n} // Builder::formatNumber", new="   auto const  number_text = oss.str();\n\n   dest.append( number_text);\n\n} // Builder::formatNumber"),
+]
